@@ -610,3 +610,30 @@ Fixpoint explain_tc_from (pre : tc_state) (ops : list tc_op) :=
                (tr_err r, tr_ret r, tr_evs r, tc_mids pre op r, snap_of st) :: explain_tc_from st t
   end.
 Definition explain_tc (c : tc_case) := explain_tc_from tc_state0 (tcc_ops c).
+
+(** * grp "restart": runtime.reload and the listener *)
+Record restart_case := { rc_old : rt_spec; rc_new : rt_spec;
+                         rc_need : bool; rc_delta : Z;       (* observed decision, observed startNum increase *)
+                         rc_live : Z;                         (* 0 not tried | 1 same connection reused | 2 new connection | 3 request failed *)
+                         rc_rbad : bool }.
+
+Definition hot_eqb (a b : rt_hot) : bool :=
+  String.eqb (rh_rules a) (rh_rules b) && list_eqb String.eqb (rh_ipfilter a) (rh_ipfilter b) &&
+  Bool.eqb (rh_xff a) (rh_xff b) && (rh_cache a =? rh_cache b) && (rh_maxconn a =? rh_maxconn b).
+
+Definition check_restart (pinned : rquirks) (c : restart_case) : result :=
+  if rc_rbad c then (true, true, 0%N, 0%N) else
+  let '(d, keeps) := rt_reload (rc_old c) (rc_new c) in
+  let hot_only := rt_listen_eqb (rs_listen (rc_old c)) (rs_listen (rc_new c)) in
+  let live := negb (rc_live c =? 0) in
+  (Bool.eqb (need_restart (rc_old c) (rc_new c)) (rc_need c) && (d =? rc_delta c) &&
+   (if live then Bool.eqb keeps (rc_live c =? 1) else true),
+   (* the property: an update of rules / filters / hot options never restarts the listener, never
+      drops the keep-alive connection of a client, never fails its next request *)
+   (if hot_only then negb (rc_need c) && (rc_delta c =? 0) && (if live then rc_live c =? 1 else true) else true),
+   (1 + bN hot_only 1 + bN (negb (hot_eqb (rs_hot (rc_old c)) (rs_hot (rc_new c)))) 2 + bN live 4
+      + bN (match rh_ipfilter (rs_hot (rc_old c)), rh_ipfilter (rs_hot (rc_new c)) with [], [] => false | _, _ => true end) 8)%N,
+   0%N).
+
+Definition explain_restart (c : restart_case) :=
+  (need_restart (rc_old c) (rc_new c), rt_reload (rc_old c) (rc_new c)).
